@@ -194,6 +194,18 @@ fn c11_hist<H: Hst>(out: &mut Out, tier: &str, rng: &mut Rng) {
 }
 
 fn c11_huge<E: Est>(out: &mut Out, _tier: &str, _rng: &mut Rng) {
+    // one observation of a magnitude whose square or cube is not representable: merging it into / with the empty
+    // estimator must reproduce it exactly
+    for x in [1e110, -1e150, 1e300, -5e-324, 1e-200] {
+        if !out.next_case() { continue; }
+        let mut a = E::new(); a.add(x);
+        let want = words(&a);
+        let (mut l, mut r) = (E::new(), a.clone());
+        l.merge(&a); r.merge(&E::default());
+        out.t(E::NAME, "merge", &words(&E::new()), &want, &words(&l));
+        let same = |u: &E, v: &E| u.accessors().iter().zip(v.accessors().iter()).all(|(p, q)| p.val.word() == q.val.word());
+        out.x(same(&l, &a) && same(&r, &a) && words(&r) == want, || format!("{}: merging the single observation {:?} with the empty estimator gives {} / {} instead of {}", E::NAME, x, words(&l), words(&r), want));
+    }
     if E::NAME == "Min" || E::NAME == "Max" { return; }
     for (d, x) in HUGE_BASES { huge_counts::<E>(out, d, x); }
 }
@@ -544,6 +556,29 @@ fn c17_pairs(out: &mut Out, tier: &str, rng: &mut Rng) {
 }
 
 /// WeightedMeanWithError / Covariance: a long chunk merged with a very short one, tiny and huge weights
+/// a light chunk of huge values merged with a heavy chunk of ordinary ones, and the other way round
+fn c17_cross_magnitude(out: &mut Out, rng: &mut Rng) {
+    for (va, wa, vb, wb) in [(1e150, 1e-10, 1.0, 1e160), (-1e150, 1.0, 2.0, 1e150), (1e140, 1e-150, -3.0, 1e150), (1.0, 1e160, -1e150, 1e-5)] {
+        for order in 0..2 {
+            if !out.next_case() { continue; }
+            let a: Vec<(f64, f64)> = (0..3).map(|i| (va * (1.0 + 0.25 * i as f64), wa * (1.0 + i as f64))).collect();
+            let b: Vec<(f64, f64)> = (0..4).map(|i| (vb + 0.5 * i as f64, wb * (1.0 + 0.5 * i as f64))).collect();
+            let t = if order == 0 { PTree::Node(Box::new(PTree::Leaf(a.clone())), Box::new(PTree::Leaf(b.clone()))) } else { PTree::Node(Box::new(PTree::Leaf(b.clone())), Box::new(PTree::Leaf(a.clone()))) };
+            let w: WeightedMean = peval(out, &t, Trace::All, rng);
+            pobserve(out, &w);
+            let we: WeightedMeanWithError = peval(out, &t, Trace::All, rng);
+            pobserve(out, &we);
+            let all: Vec<f64> = a.iter().chain(b.iter()).map(|p| p.0).collect();
+            let (mn, mx) = (all.iter().cloned().fold(f64::INFINITY, f64::min), all.iter().cloned().fold(f64::NEG_INFINITY, f64::max));
+            let slack = 1e-9 * (mx - mn).abs();
+            for (nm, v) in [("WeightedMean.mean", w.mean()), ("WeightedMeanWithError.weighted_mean", we.weighted_mean())] {
+                out.x(v >= mn - slack && v <= mx + slack, || format!("{} = {:?} outside [{:?},{:?}] for chunks {:?} and {:?}", nm, v, mn, mx, &a[..2], &b[..2]));
+            }
+        }
+    }
+    let _ = rng;
+}
+
 fn c17_pairs_lopsided(out: &mut Out, tier: &str, rng: &mut Rng) {
     for (ti, t) in lopsided_trees(rng, tier != "thorough").iter().enumerate() {
         if !out.next_case() { continue; }
@@ -585,12 +620,14 @@ fn c17_pairs_lopsided(out: &mut Out, tier: &str, rng: &mut Rng) {
 }
 
 fn c17_hist<H: Hst>(out: &mut Out, tier: &str, rng: &mut Rng) {
-    for _ in 0..(if tier == "thorough" { 60 } else { 15 }) {
+    for rep in 0..(if tier == "thorough" { 60 } else { 15 }) {
         if !out.next_case() { continue; }
         let mut h = H::cw(0.0, 1.0);
         let cap = if rng.unit() < 0.2 { 100_000 } else { 200 }; let total = 1 + rng.below(cap);
         let skew = rng.unit();
         for _ in 0..total { let _ = h.add_(rng.unit().powf(1.0 + 4.0 * skew)); }
+        // counts beyond 2^32 (products of two counts beyond 2^64), reached by *= and by merging such histograms
+        if rep % 3 == 2 { h.mul_assign_(*rng.pick(&[1u64 << 31, (1 << 33) + 5, 1 << 40])); let c = h.clone(); h.merge_(&c); }
         let n: u64 = h.bins_().iter().sum();
         let pre = words(&h);
         let vs = h.variances_();
@@ -609,6 +646,7 @@ pub fn c17(out: &mut Out, tier: &str, rng: &mut Rng) {
     c17_lopsided::<average::Kurtosis>(out, tier, rng); c17_lopsided::<average::Moments4>(out, tier, rng);
     c17_pairs(out, tier, rng);
     c17_pairs_lopsided(out, tier, rng);
+    c17_cross_magnitude(out, rng);
     // a far outlier added at a huge count, data at the top of the property's range (|x| <= 1e150)
     for (d, x) in HUGE_BASES_VAR { huge_counts::<average::Variance>(out, d, x); huge_counts::<average::Mean>(out, d, x); }
     c17_hist::<H1>(out, tier, rng); c17_hist::<H3>(out, tier, rng); c17_hist::<H10>(out, tier, rng); c17_hist::<H100>(out, tier, rng);
